@@ -65,6 +65,7 @@ Definition start_guard (h : list ms_obs) (x : ms_obs) : Prop :=
       outstanding h = false /\ forall c, cfg_in h A = Some c -> kind_guard k c A h
   | MsOTxLink _ A ka =>
       outstanding h = false /\ (ka = true -> forall c, cfg_in h A = Some c -> kind_guard MsKPoll c A h)
+  | MsOSleep t (Some u) => t < u
   | _ => True
   end.
 
@@ -101,16 +102,16 @@ Proof.
 Qed.
 
 Definition nostart (x : ms_obs) : Prop :=
-  match x with MsOStart _ _ _ _ _ | MsOTxLink _ _ _ => False | _ => True end.
+  match x with MsOStart _ _ _ _ _ | MsOTxLink _ _ _ | MsOSleep _ (Some _) => False | _ => True end.
 
 Lemma GOOD_nostart h o : Forall nostart o -> GOOD h o.
 Proof.
   intros F o1 x o2 H. subst o. apply Forall_app in F as [_ F]. inversion F; subst.
-  destruct x; cbn in *; auto; contradiction.
+  destruct x as [| | | | | | | | | | | |? [?|]|]; cbn in *; auto; contradiction.
 Qed.
 
 Lemma local_nostart o : Forall local o -> Forall nostart o.
-Proof. apply Forall_impl. intros x; destruct x; cbn; auto. Qed.
+Proof. apply Forall_impl. intros x; destruct x as [| | | | | | | | | | | |? [?|]|]; cbn; auto. Qed.
 
 (* ================================================================================================
    2. The invariant
@@ -504,7 +505,8 @@ Lemma GOOD_cons_start h x rest : start_guard h x -> Forall nostart rest -> GOOD 
 Proof.
   intros G F o1 y o2 H. destruct o1 as [|z o1]; cbn [app] in H; inversion H; subst.
   - rewrite app_nil_r. exact G.
-  - apply Forall_app in F as [_ F]. inversion F; subst. destruct y; cbn in *; auto; contradiction.
+  - apply Forall_app in F as [_ F]. inversion F; subst.
+    destruct y as [| | | | | | | | | | | |? [?|]|]; cbn in *; auto; contradiction.
 Qed.
 
 (* from the flags of the chosen association to the guard over the history *)
@@ -538,7 +540,7 @@ Definition is_res (x : ms_obs) : Prop := match x with MsORes _ _ _ => True | _ =
 Lemma res_out_neutral o : Forall is_res o -> Forall out_neutral o.
 Proof. apply Forall_impl. intros x; destruct x; cbn; auto. Qed.
 Lemma res_nostart o : Forall is_res o -> Forall nostart o.
-Proof. apply Forall_impl. intros x; destruct x; cbn; auto. Qed.
+Proof. apply Forall_impl. intros x; destruct x; cbn; auto; contradiction. Qed.
 Lemma res_quiet o : Forall is_res o -> Forall quiet o.
 Proof. apply Forall_impl. intros x; destruct x; cbn; try contradiction. intros _. split; [reflexivity|exact I]. Qed.
 
